@@ -122,6 +122,8 @@ def match_known(v: Violation, known):
         for k in e.get("node_lacks", []):
             if _has_key(node, k):
                 ok = False
+        if "detail_contains" in e and e["detail_contains"] not in v.what:
+            ok = False
         if "node_type" in e:
             tn = type(node).__name__
             if tn not in e["node_type"]:
